@@ -343,7 +343,12 @@ func (r *Runner) builtin(ctx context.Context, pos syntax.Pos, name string, args 
 		if len(args) == 0 {
 			// Note that "wait" without arguments always returns exit status zero.
 			for _, bg := range r.bgProcs {
-				<-bg.done
+				select {
+				case <-bg.done:
+				case <-ctx.Done():
+					exit.fatal(ctx.Err())
+					return exit
+				}
 				verifYield("wait-woken")
 			}
 			break
@@ -355,7 +360,12 @@ func (r *Runner) builtin(ctx context.Context, pos syntax.Pos, name string, args 
 				return failf(1, "wait: pid %s is not a child of this shell\n", arg)
 			}
 			bg := r.bgProcs[pid-1]
-			<-bg.done
+			select {
+			case <-bg.done:
+			case <-ctx.Done():
+				exit.fatal(ctx.Err())
+				return exit
+			}
 			verifYield("wait-woken")
 			exit = *bg.exit
 		}
